@@ -88,12 +88,34 @@ def gen_pool(rng):
             l = l * (1 - 0.8 * betas[t])
         logl.append(l)
         us.append(u)
+    stalled = 0
+    if rng.random() < 0.06:
+        # a long tail of iterations recorded at ONE intermediate temperature (annealing that does not get anywhere: 20 ... 120 batches),
+        # drawn far from that temperature's target, so the pool's ESS there stays of the order of the configured target
+        stalled = int(rng.choice([20, 49, 50, 51, 75, 120]))
+        b_st = float(betas[-1]) if 0 < betas[-1] < 1 else float(rng.uniform(0.05, 0.9))
+        N = int(rng.choice([16, 32]))
+        for _ in range(stalled):
+            u = rng.random((N, d))
+            r2 = np.sum((u - 0.5) ** 2, axis=1)
+            l = {"quadratic": -scale * r2, "flat": -1e-3 * scale * r2, "peaked": -100 * scale * r2, "heavy": -scale * np.log1p(50 * r2),
+                 "needle": -needle_amp * r2}[kind]
+            logl.append(l * (1 - 0.8 * b_st))
+            us.append(u)
+            ns.append(N)
+        betas = np.concatenate([betas, np.full(stalled, b_st)])
+        T = T + stalled
     # consistent-ish logz_t: sequential estimates from the reference itself
     logz = np.zeros(T)
     for t in range(1, T):
         _, _, z, _ = mis_ref(logl[:t], betas[:t], logz[:t], betas[t])
         logz[t] = float(z) + 0.05 * rng.standard_normal()
     er = float(rng.choice([0.5, 1.0, 2.0, 3.5]))
+    if stalled:
+        # target of the order of the ESS the pool has at the stalled temperature (between a third of it and three times it)
+        _, _, _, e_st = mis_ref(logl, betas, logz, float(betas[-1]))
+        er = float(e_st) / N * float(rng.choice([0.34, 0.6, 0.9, 1.5, 3.0]))
+        kind = kind + "+stalled"
     vol = None if rng.random() < 0.6 else float(rng.choice([0.2, 1.0, 5.0]))
     return dict(T=T, N=N, ns=ns, us=us, logl=logl, betas=betas, logz=logz, ess_ratio=er, vol=vol, kind=kind, scale=float(scale))
 
@@ -361,6 +383,10 @@ def run():
             ck.event("synthetic pools through Reweighter.run")
             if adv:
                 ck.event("pools on which beta advanced")
+            if "+stalled" in str(desc.get("kind")):
+                ck.event("pools whose last 20 ... 120 iterations were recorded at one intermediate temperature")
+                if adv:
+                    ck.event("... on which beta advanced")
             ck.event("_find_beta_upper_limit observed", nlim)
             for key, what in bad:
                 ck.violation(key, what, dict(stream=["pool", idx], case=desc))
